@@ -14,6 +14,8 @@ use crate::symbol::with_symbol_table;
 use crate::{dprintln, features};
 
 pub use self::breakpoint::{Breakpoint, Breakpoints};
+#[cfg(lace_verif)]
+pub use self::command::{verif_parse_command, VerifTerminal};
 
 /// Leave this as a struct, in case more options are added in the future. Plus it is more explicit.
 #[derive(Debug)]
@@ -148,6 +150,18 @@ impl Debugger {
 
     pub(super) fn increment_instruction_count(&mut self) {
         self.instruction_count += 1;
+    }
+
+    #[cfg(lace_verif)]
+    pub(super) fn verif_breakpoints(&self) -> Vec<(u16, bool)> {
+        self.breakpoints
+            .iter()
+            .map(|breakpoint| (breakpoint.address, breakpoint.is_predefined))
+            .collect()
+    }
+    #[cfg(lace_verif)]
+    pub(super) fn verif_current_breakpoint(&self) -> Option<u16> {
+        self.current_breakpoint
     }
 
     /// Read and execute user commands, until an [`Action`] is raised.
